@@ -449,3 +449,55 @@ theorem tokenize_lossless (kw : List Char → Option TokenType) (src : List Char
   simp at h1; subst h1; exact h2
 
 end BlochVerif.Lex
+
+namespace BlochVerif.Lex
+
+/-- a successful scan strictly shortens the input -/
+theorem scanToken_shrinks (kw : List Char → Option TokenType) (start : Pos) (c : Char) (rest : List Char)
+    (hc : isSpace c = false) (tok : Token) (rest' : List Char) (p' : Pos)
+    (h : scanToken kw start c rest = .ok (tok, rest', p')) : rest'.length < (c :: rest).length := by
+  have ok := scanToken_ok kw start c rest hc tok rest' p' h
+  have e2 : (c :: rest).length = tok.text.length + rest'.length := by rw [ok.split]; simp
+  have e3 : 0 < tok.text.length := List.length_pos_iff.mpr ok.nonempty
+  omega
+
+/-- **The lexer never runs out of fuel**: with any fuel above the input length the result is the
+    same, so the `fuel = 0` branch is unreachable from `tokenize` — the loop always terminates by
+    consuming the input (every iteration consumes at least one byte). -/
+theorem tokenizeAux_fuel_irrelevant (kw : List Char → Option TokenType) (f1 f2 : Nat) (s : List Char)
+    (p : Pos) (acc : List Token) (h1 : s.length < f1) (h2 : s.length < f2) :
+    tokenizeAux kw f1 s p acc = tokenizeAux kw f2 s p acc := by
+  induction f1 generalizing f2 s p acc with
+  | zero => omega
+  | succ n ih =>
+    cases f2 with
+    | zero => omega
+    | succ m =>
+      unfold tokenizeAux
+      cases s with
+      | nil => rfl
+      | cons c0 cs =>
+        simp only
+        obtain ⟨w, hw1, _, _, hw4⟩ := skipWsAux_spec false (c0 :: cs) p
+        have hskip : skipWs (c0 :: cs) p = skipWsAux false (c0 :: cs) p := rfl
+        rw [hskip]
+        generalize hr : (skipWsAux false (c0 :: cs) p).1 = r at *
+        generalize (skipWsAux false (c0 :: cs) p).2 = p2 at *
+        cases r with
+        | nil => rfl
+        | cons c rest =>
+          simp only
+          have hcs : isSpace c = false := by
+            cases rest with
+            | nil => exact hw4
+            | cons d ds => exact hw4.1
+          cases hsc : scanToken kw p2 c rest with
+          | error e => rfl
+          | ok res =>
+            obtain ⟨tok, rest', p'⟩ := res
+            simp only
+            have hs := scanToken_shrinks kw p2 c rest hcs tok rest' p' hsc
+            have e1 : (c0 :: cs).length = w.length + (c :: rest).length := by rw [hw1]; simp
+            exact ih m rest' p' (tok :: acc) (by omega) (by omega)
+
+end BlochVerif.Lex
